@@ -78,6 +78,14 @@ def s_apply(ctx, container_is_function=False):
         container_cls = ir.Function
     model = SObj(ir.Model, "model")
     model.fields.update(graph=container, functions={})
+    # the graph being rewritten need not be the model's main graph (a control-flow body inside a model-local function is
+    # rewritten with the function as root: the main graph is not an enclosing scope of it)
+    main = container
+    if not container_is_function and ctx.choose(2, "the graph being rewritten is not the model's main graph") == 1:
+        main = GraphLike([], {})
+        main.initializers = {}
+        main.opset_imports = {"": 18}
+        model.fields["graph"] = main
     rules = []
     fired = []
     for r_i in range(2):
@@ -167,6 +175,9 @@ def s_apply(ctx, container_is_function=False):
                   and all(rr.RULE_NAME_TAG not in n.fields["metadata_props"] for n in nodes), CL)
     ctx.check("C07.apply.existing_initializer_with_the_same_name_is_not_replaced",
               all(container.initializers.get(k) is v for k, v in before_inits.items()), CL_INIT)
+    if main is not container:
+        ctx.check("C07.apply.initializers_of_another_graph_are_left_alone", main.initializers == {},
+                  CL_INIT + " — an initializer registered in the main graph is out of scope inside a function body")
     if container_is_function:
         ctx.check("C07.apply.no_initializers_added_to_functions", set(container.initializers) == set(before_inits), CL_INIT)
     # each (container) gets every rule's pre and post visitor once: main container + the subgraph
@@ -233,6 +244,8 @@ def s_update_opset_imports(ctx):
                   "C07/C04: 'every domain used has an opset import' with a single version")
         return
     ctx.check("C07.update_opset_imports.used_domain_is_imported", "custom" in imports, "C04: 'every domain used has an opset import'")
+    if "custom" not in imports:
+        return
     if have:
         ctx.check("C07.update_opset_imports.existing_import_kept", term(imports["custom"]) == v_have, CL)
         if not none_version:
